@@ -972,6 +972,7 @@ def _async(ctx, BR, DelimiterError):
             plan = _async_plan(rnd, big)
             res = await _run_async(env, plan, _async_chooser(rnd, plan), sess.next())
             record(plan, res, 'random')
+            await asyncio.sleep(0)        # let the loop finalize the abandoned async generators of this case (else they pile up)
             ctx.count('async_len_' + ('big' if big else 'small'))
             ctx.count('async_src_' + plan['src_mode'])
             ctx.count('async_ops', len(res[1]))
@@ -1006,6 +1007,7 @@ def _async(ctx, BR, DelimiterError):
                         it = iter(h)
                         res = await _run_async(env, plan, lambda *_a: next(it, None), sess.next() if j % 40 == 0 else None)
                         record(plan, res, 'grid', ('ag', idx))
+                        await asyncio.sleep(0)
     asyncio.run(main())
     sess.finish()
 
